@@ -219,7 +219,13 @@ func SelectOrder(site string, n int) []int {
 		// (wind-down: source order, no tape draw)
 		return o
 	}
-	if goid() == s.root {
+	g := goid()
+	if g == s.root {
+		return o
+	}
+	if s.taskOf(g) == nil {
+		// not a task of this simulation (e.g. a package-init goroutine outside the
+		// bubble): must never touch the tape
 		return o
 	}
 	// one draw: rotation + optional reversal keeps the tape short
